@@ -277,6 +277,11 @@ def parseTickStep1 (s : String) : Option DTick :=
   else if s == "cM" || s == "wX" then some (.one .readErr)
   else if s == "cD" then some (.one .cmdDisconnect)
   else if s == "cK" then some (.one .cmdKeepalive)
+  else if s == "cDr" then some (.one (.cmdDisconnectWith (some .rejected)))
+  else if s == "cDc" then some (.one (.cmdDisconnectWith (some .reconfiguration)))
+  else if s == "cDd" then some (.one (.cmdDisconnectWith (some .deconfigured)))
+  else if s == "cDh" then some (.one (.cmdDisconnectWith (some .holdTimerExpired)))
+  else if s == "cDo" then some (.one (.cmdDisconnectWith none))
   else if s.startsWith "bU:" then parseBurst s
   else if s.startsWith "w" then (msgOfToken s).map (fun m => .one (.frame m))
   else if s.startsWith "q" then none
